@@ -1,5 +1,6 @@
 /-
-C03 — executable Spec over the terminal counters of a pool that ended normally.
+C03 — executable Spec over the terminal counters of a pool that ended normally.  Evaluated on what the REAL engine did
+(the counters come from the harness' log of Provider / Gun / Aggregator calls and from the engine's own Metrics).
 -/
 import Pandora.Model.C03
 
@@ -7,26 +8,34 @@ namespace Pandora.Spec.C03
 open Pandora.Model.C03
 
 structure Counters where
-  fired : Nat
-  discarded : Nat
-  acquired : Nat
-  released : Nat
-  request : Nat
-  response : Nat
-  usedAfterRelease : Bool
-  doubleRelease : Bool
+  started : Nat            -- metrics.InstanceStart
+  fired : Nat              -- Gun.Shoot calls
+  discarded : Nat          -- Aggregator.Report of a discarded sample
+  acquired : Nat           -- Provider.Acquire calls that returned an item
+  released : Nat           -- Provider.Release calls
+  request : Nat            -- metrics.Request
+  response : Nat           -- metrics.Response
+  usedAfterRelease : Bool  -- a Shoot got an item its instance did not hold at that moment
+  doubleRelease : Bool     -- a Release of an item that was not held
+  maxReleases : Nat        -- the largest number of Release calls any single item received
+  minReleases : Nat        -- the smallest (over acquired items; 1 when nothing was acquired)
+
+/-- total tokens: the shared profile, or one full profile per started instance -/
+def totalTokens (c : Cfg) (k : Counters) : Nat := if c.perInstance then k.started * c.tokens else c.tokens
 
 def verdict (c : Cfg) (k : Counters) : String :=
-  let total := minOpt c.totalTokens c.ammo
-  if k.fired + k.discarded != total then
-    s!"fail:count:fired {k.fired} + discarded {k.discarded} != min(tokens {c.totalTokens}, ammo {repr c.ammo}) = {total}"
-  else if k.acquired != k.released || k.doubleRelease then
-    s!"fail:release:acquired {k.acquired} released {k.released} double={k.doubleRelease}"
+  let total := minOpt (totalTokens c k) c.ammo
+  if c.instances == 0 then "skip:startup-schedule-starts-no-instance"
+  else if k.started == 0 then s!"fail:count:no instance was started although the startup schedule has {c.instances} tokens"
+  else if k.fired + k.discarded != total then
+    s!"fail:count:fired {k.fired} + discarded {k.discarded} != min(tokens {totalTokens c k}, ammo {repr c.ammo}) = {total}"
+  else if k.acquired != k.released || k.doubleRelease || k.maxReleases > 1 || k.minReleases != 1 then
+    s!"fail:release:acquired {k.acquired} released {k.released} double={k.doubleRelease} per-item releases {k.minReleases}..{k.maxReleases}"
   else if k.usedAfterRelease then "fail:use-after-release:an ammo was shot while not held"
   else if c.perInstance && k.acquired != k.fired + k.discarded then
     s!"fail:unfired:per-instance profile left {k.acquired - (k.fired + k.discarded)} acquired items unfired"
-  else if !c.perInstance && k.acquired - (k.fired + k.discarded) > c.instances - 1 then
-    s!"fail:unfired:{k.acquired - (k.fired + k.discarded)} unfired items with {c.instances} instances"
+  else if !c.perInstance && k.acquired - (k.fired + k.discarded) > k.started - 1 then
+    s!"fail:unfired:{k.acquired - (k.fired + k.discarded)} unfired items with {k.started} instances"
   else if k.request != k.fired || k.response != k.fired then
     s!"fail:metrics:request {k.request} response {k.response} fired {k.fired}"
   else if !c.discardOn && k.discarded != 0 then s!"fail:discard-off:{k.discarded} discarded with discard_overflow off"
